@@ -506,6 +506,28 @@ class Path(object):
     return None
 
 
+def path_resolve(path, expr, before_index=None, depth=6):
+  """Follows a local name on the path through name-to-value assignments to
+  the expression it finally stands for (the last definition before each use).
+  """
+  idx = len(path.steps) if before_index is None else before_index
+  while isinstance(expr, ast.Name) and depth > 0:
+    found = None
+    for i in range(idx - 1, -1, -1):
+      n = path.steps[i][0]
+      s = n.ast
+      if n.kind == 'stmt' and isinstance(s, ast.Assign) and len(
+          s.targets) == 1 and isinstance(s.targets[0], ast.Name) and \
+          s.targets[0].id == expr.id:
+        found = (i, s.value)
+        break
+    if found is None:
+      return expr
+    idx, expr = found
+    depth -= 1
+  return expr
+
+
 def walk_paths(cfg, decide, follow_exc=None, max_paths=4096, max_len=600,
                start=None):
   """Enumerates paths from entry to an exit.
